@@ -96,6 +96,10 @@ def cases(tier, seed):
                 for mk in ("none", "bool_sym"):
                     out.append({"kind": "observer", "rep": rep, "lengths": lengths, "N": N, "G": G, "op": op, "mask": mk,
                                 "name": f"{op} on {rep} == on contiguous codes/chunks={ln},G={G}/mask={mk}"})
+            for op in ("sum", "count_ikey"):
+                # integer positions (repeats, any order, negative): chunked keys must give what contiguous codes give
+                out.append({"kind": "observer", "rep": rep, "lengths": lengths, "N": N, "G": G, "op": op, "mask": "fancy", "L": 3,
+                            "name": f"{op} on {rep} == on contiguous codes/chunks={ln},G={G}/mask=positions(L=3)"})
             for op in ("sum", "count_ikey", "transform_sum"):
                 for sl in ((1, None), (None, -1), (lengths[0], None), (-1, None), (2, 3)):
                     out.append({"kind": "observer", "rep": rep, "lengths": lengths, "N": N, "G": G, "op": op, "mask": "slice", "slice": list(sl),
@@ -141,6 +145,8 @@ def build(case, inp, allow_null=True):
     d["v2"] = inp.values("w", N, "float64")
     d["m1"] = inp.bools("m", N)
     d["m2"] = inp.bools("n", N)
+    if case.get("mask") == "fancy":
+        d["p"] = inp.ints("p", case["L"], -N, N - 1)
     return d
 
 
@@ -241,6 +247,8 @@ def run_case(E, case):
             def MK():
                 if case["mask"] == "slice":
                     return slice(case["slice"][0], case["slice"][1])
+                if case["mask"] == "fancy":
+                    return A(d["p"], "int64").tag("input:mask")
                 return M("m1", on)
             p1 = run_paths(lambda: f(state_of(E, case, d), V("v1"), MK()))
             p2 = run_paths(lambda: f(state_of(E, case, d, "contiguous"), V("v1"), MK()))
@@ -576,7 +584,8 @@ def replay(case, conc, cand=None):
         if case["kind"] == "observer":
             on = case["mask"] == "bool_sym"
             f = OPS[case["op"]]
-            mk = slice(case["slice"][0], case["slice"][1]) if case["mask"] == "slice" else (m1 if on else None)
+            mk = slice(case["slice"][0], case["slice"][1]) if case["mask"] == "slice" else (
+                real_np.array(conc["p"], dtype="int64") if case["mask"] == "fancy" else (m1 if on else None))
             a = _real_cells(f(_real_state(case, conc)[0], v1, mk))
             b = _real_cells(f(_real_state(case, conc, "contiguous")[0], v1, mk))
         elif case["kind"] == "sequence":
